@@ -206,3 +206,123 @@ type TopInts = []int
 type TopStrings = []string
 type TopIns = []TIn
 type TopMapSI = map[string]int
+
+// ---- C03: schema evolution pairs. Kx* are the "old" types (a field of every
+// wire shape at index 2, between two surviving fields); KxPrime is the "new"
+// type: field 2 removed, fields renamed and reordered, a field added.
+
+type KxVarint struct {
+	A int    `plenc:"1"`
+	X int    `plenc:"2"`
+	B string `plenc:"3"`
+}
+
+type KxFlat struct {
+	A int    `plenc:"1"`
+	X uint64 `plenc:"2"`
+	B string `plenc:"3"`
+}
+
+type KxF32 struct {
+	A int     `plenc:"1"`
+	X float32 `plenc:"2"`
+	B string  `plenc:"3"`
+}
+
+type KxF64 struct {
+	A int     `plenc:"1"`
+	X float64 `plenc:"2"`
+	B string  `plenc:"3"`
+}
+
+type KxStr struct {
+	A int    `plenc:"1"`
+	X string `plenc:"2"`
+	B string `plenc:"3"`
+}
+
+type KxStruct struct {
+	A int    `plenc:"1"`
+	X TIn    `plenc:"2"`
+	B string `plenc:"3"`
+}
+
+type KxPacked struct {
+	A int    `plenc:"1"`
+	X []int  `plenc:"2"`
+	B string `plenc:"3"`
+}
+
+type KxFixed struct {
+	A int       `plenc:"1"`
+	X []float32 `plenc:"2"`
+	B string    `plenc:"3"`
+}
+
+type KxCounted struct {
+	A int      `plenc:"1"`
+	X []string `plenc:"2"`
+	B string   `plenc:"3"`
+}
+
+type KxCountedS struct {
+	A int    `plenc:"1"`
+	X []TIn  `plenc:"2"`
+	B string `plenc:"3"`
+}
+
+type KxMap struct {
+	A int            `plenc:"1"`
+	X map[string]int `plenc:"2"`
+	B string         `plenc:"3"`
+}
+
+type KxTime struct {
+	A int       `plenc:"1"`
+	X time.Time `plenc:"2"`
+	B string    `plenc:"3"`
+}
+
+type KxPtr struct {
+	A int    `plenc:"1"`
+	X *TIn   `plenc:"2"`
+	B string `plenc:"3"`
+}
+
+// KxPrime: the evolved type.
+type KxPrime struct {
+	Bee string `plenc:"3"`
+	Aye int    `plenc:"1"`
+	New int    `plenc:"9"`
+}
+
+// nested positions
+type KxNest struct {
+	In KxStr `plenc:"1"`
+	Z  int   `plenc:"2"`
+}
+
+type KxNestPrime struct {
+	Zed   int     `plenc:"2"`
+	Inner KxPrime `plenc:"1"`
+}
+
+type KxElem struct {
+	L []KxPacked `plenc:"1"`
+	Z int        `plenc:"2"`
+}
+
+type KxElemPrime struct {
+	L []KxPrime `plenc:"1"`
+	Z int       `plenc:"2"`
+}
+
+type KxVal struct {
+	M map[string]KxStruct `plenc:"1"`
+	Z int                 `plenc:"2"`
+}
+
+type KxValPrime struct {
+	M map[string]KxPrime `plenc:"1"`
+	Z int                `plenc:"2"`
+}
